@@ -1030,8 +1030,10 @@ def oracle_fit(case, ia):
     if min(amps) < 0:
         return f"amplitudes-nonnegative: fitted amplitudes {amps}"
     # SLSQP enforces the equality constraint to its own accuracy (acc = ftol = 1e-6 by default, then clips to the bounds)
-    if abs(sum(amps) - 1.0) > (1e-4 if converged else 1e-3):
-        return f"amplitudes-sum-to-one: fitted amplitudes {amps} sum to {sum(amps)!r}"
+    if abs(sum(amps) - 1.0) > 1e-4:
+        # after an unsuccessful SLSQP exit pylake reports the last iterate without looking at result.success: that class
+        # is the open finding F24 (see tags); after a successful exit any deviation is a violation
+        return f"amplitudes-sum-to-one: fitted amplitudes {amps} sum to {sum(amps)!r} (optimiser: {toks[3]})"
     lo = max(float(np.min(tmin)) * 0.1, 1e-8)
     hi = min(float(np.max(tmax)) * 1.1, 1e8)
     for tau in taus:
@@ -1283,6 +1285,9 @@ def tags(case, r):
         t["window_underflow_within_bounds"] = underflow_within_bounds(case)
         first = r["impl"][0].split(" ")[0]
         t["reported_loglik_finite"] = first.startswith("b") and math.isfinite(dec_float(first))
+        toks = r["impl"][0].split(" ")
+        unsuccessful = len(toks) > 3 and toks[3].startswith("slsqp-status")
+        t["amplitude_sum_off_after_unsuccessful_slsqp_exit"] = bool(unsuccessful and str(r.get("clause") or "").startswith("amplitudes-sum-to-one"))
     if case["op"] == "extract":
         t["via"] = case["via"]
         t["excl"] = case["excl"]
